@@ -108,7 +108,7 @@ int p_c16(void)
 			rng_t rng = rng_make(g_run.seed, 1600 + k * 32 + r, sp);
 			cfg_t c = { 5, 0, k, r, (uint32_t[]){ 1, 4, 7, 16, 33 }[(k + r + sp) % 5], 0, 0 };
 			block_t b;
-			if (!rep_case("2d-encode k=%u r=%u L=%u", k, r, c.L)) { const char *sv = g_prop; g_prop = ""; int rc = block_build(&b, &c, PAY_RANDOM, &rng, 0, -1); g_prop = sv; if (rc) { block_free(&b); continue; } }
+			if (!rep_case("2d-encode k=%u r=%u L=%u", k, r, c.L)) { if (rep_is_resume_point()) continue; const char *sv = g_prop; g_prop = ""; int rc = block_build(&b, &c, PAY_RANDOM, &rng, 0, -1); g_prop = sv; if (rc) { block_free(&b); continue; } }
 			else {
 				int rc = block_build(&b, &c, PAY_RANDOM, &rng, sp == 0 ? rng_u64(&rng) : 0, -1);
 				rep_case_done(1, 0, 1);
